@@ -294,7 +294,9 @@ func unmarshalGeoJSONAsType(p []byte, dst interface{}) error {
 func (g Geometry) AppendWKT(dst []byte) []byte {
 	switch g.gtype {
 	case TypeGeometryCollection:
-		return (*GeometryCollection)(g.ptr).AppendWKT(dst)
+		// The zero value Geometry has a nil ptr, but is still a valid (empty)
+		// GeometryCollection.
+		return g.MustAsGeometryCollection().AppendWKT(dst)
 	case TypePoint:
 		return (*Point)(g.ptr).AppendWKT(dst)
 	case TypeLineString:
